@@ -617,3 +617,298 @@ Proof.
   eapply DInv_trans; eauto. split; [|split]; [|apply frame_grows; auto|apply F].
   rewrite L. eapply Inv_frame; eauto. apply Inv'_quiet; auto. apply D1.
 Qed.
+
+(* ---------- S phase ---------- *)
+#[local] Arguments tick_client : simpl never.
+#[local] Arguments sweep_conn : simpl never.
+#[local] Arguments sweep_temp : simpl never.
+
+Definition SInv (s s' : srv) (o : list sout) (phi : Z -> option phase) : Prop :=
+  Inv s' (adv phi (hlog o)) /\ s_active s' = s_active s /\ s_dead s' = s_dead s.
+
+Lemma SInv_trans s s1 s2 o1 o2 phi :
+  SInv s s1 o1 phi -> SInv s1 s2 o2 (adv phi (hlog o1)) -> SInv s s2 (o1 ++ o2) phi.
+Proof.
+  intros (A & B & C) (D & E & F). split; [|split]; try congruence.
+  eapply Inv'_ext; [|exact D]. intros c. rewrite hlog_app, adv_app. auto.
+Qed.
+Lemma SInv_frame s s' phi : frame s s' -> Inv s phi -> SInv s s' [] phi.
+Proof. intros F I. split; [eapply Inv_frame; eauto|split; apply F]. Qed.
+Lemma SInv_log s s' o o' phi : hlog o' = hlog o -> SInv s s' o phi -> SInv s s' o' phi.
+Proof. intros E (A & B & C). split; [|split]; auto. rewrite E. auto. Qed.
+
+Lemma tick_client_spec e s cl now s' o p r :
+  tick_client e s cl now = (s', o, p, r) -> frame s s' /\ hlog o = [].
+Proof.
+  unfold tick_client. destruct (server_tick _ _ _) as [c' o']. intros [= <- <- <- <-].
+  split; [apply supd_frame|apply hlog_cb_outs].
+Qed.
+
+Lemma hlog_upderr (b : bool) cid : hlog (if b then [SUpdErr cid] else []) = [].
+Proof. destruct b; reflexivity. Qed.
+
+Lemma pfind_shape cid p cl : pfind cid p = Some cl -> In (cid, cl_addr cl) (shape p).
+Proof. intros H. apply pfind_in in H. destruct H as [H <-]. apply in_shape; auto. Qed.
+
+Lemma sweep_conn_inv h e s now cid s' o p phi :
+  sweep_conn h e s now cid = (s', o, p) -> Inv s phi -> SInv s s' o phi.
+Proof.
+  unfold sweep_conn. destruct (pfind cid (s_conns s)) as [cl0|] eqn:P0.
+  2:{ intros [= <- <- <-] I. apply SInv_frame; [apply frame_refl|auto]. }
+  match goal with |- context [pfind cid (s_conns ?x)] =>
+    match x with s => fail 1 | _ => set (sa := x) end end.
+  assert (Fa : frame s sa). { unfold sa. destruct (status_eqb _ _); [apply supd_frame|apply frame_refl]. }
+  destruct (pfind cid (s_conns sa)) as [cl|] eqn:P1.
+  2:{ intros [= <- <- <-] I. apply SInv_frame; auto. }
+  destruct (_ || _).
+  - destruct (call_handler h e sa (HDisconnect cid)) as [s1 o1] eqn:C.
+    apply call_handler_spec in C. destruct C as [F1 L1].
+    destruct (pfind cid (s_conns s1)) as [cl1|] eqn:P2.
+    + destruct (tick_client e s1 cl1 now) as [[[s2 o2] snd_] r2] eqn:Tk.
+      apply tick_client_spec in Tk. destruct Tk as [F2 L2].
+      intros [= <- <- <-] I.
+      assert (Fall : frame s s2) by (eapply frame_trans; [eapply frame_trans|]; eauto).
+      destruct Fall as (T2 & C2 & N2 & B2 & G2 & A2 & D2).
+      split; [|split; [exact A2|exact D2]].
+      rewrite !hlog_app, L1, L2, hlog_upderr. simpl.
+      unfold Inv; simpl. rewrite shape_pdel. rewrite T2, C2, N2.
+      apply Inv'_disc; auto. destruct Fa as (_ & Ca & _). rewrite <- Ca. apply pfind_shape; auto.
+    + intros [= <- <- <-] I. exfalso. apply pfind_none in P2. apply P2.
+      destruct F1 as (_ & C1 & _). rewrite <- shape_ids, C1, shape_ids. apply pfind_in in P1.
+      destruct P1 as [P1 <-]. apply in_map; auto.
+  - destruct (tick_client e sa cl now) as [[[s2 o2] snd_] r2] eqn:Tk.
+    apply tick_client_spec in Tk. destruct Tk as [F2 L2]. intros [= <- <- <-] I.
+    eapply SInv_log with (o := []). { rewrite hlog_app, L2, hlog_upderr. auto. }
+    apply SInv_frame; auto. eapply frame_trans; eauto.
+Qed.
+
+Lemma sweep_temp_inv e s now cid s' o p phi :
+  sweep_temp e s now cid = (s', o, p) -> Inv s phi -> SInv s s' o phi.
+Proof.
+  unfold sweep_temp. destruct (pfind cid (s_temp s)) as [cl|] eqn:P0.
+  2:{ intros [= <- <- <-] I. apply SInv_frame; [apply frame_refl|auto]. }
+  destruct (_ || _).
+  - intros [= <- <- <-] I. split; [|split; reflexivity]. simpl.
+    unfold Inv; simpl. rewrite shape_pdel. apply Inv'_drop; auto.
+  - destruct (tick_client e s cl now) as [[[s2 o2] snd_] r2] eqn:Tk.
+    apply tick_client_spec in Tk. destruct Tk as [F2 L2]. intros [= <- <- <-] I.
+    eapply SInv_log with (o := []). { rewrite hlog_app, L2, hlog_upderr. auto. }
+    apply SInv_frame; auto.
+Qed.
+
+Lemma sweep_list_inv (f : srv -> Z -> srv * list sout * list pending) :
+  (forall s cid s' o p phi, f s cid = (s', o, p) -> Inv s phi -> SInv s s' o phi) ->
+  forall ids s s' o p phi, sweep_list f s ids = (s', o, p) -> Inv s phi -> SInv s s' o phi.
+Proof.
+  intros Hf. induction ids as [|cid r IH]; simpl; intros s s' o p phi.
+  - intros [= <- <- <-] I. apply SInv_frame; [apply frame_refl|auto].
+  - destruct (f s cid) as [[s1 o1] p1] eqn:F1. destruct (sweep_list f s1 r) as [[s2 o2] p2] eqn:F2.
+    intros [= <- <- <-] I. pose proof (Hf _ _ _ _ _ _ F1 I) as S1.
+    eapply SInv_trans; eauto. eapply IH; eauto. apply S1.
+Qed.
+
+Lemma hlog_send_all l : forall prev o d, send_all prev l = (o, d) -> hlog o = [].
+Proof.
+  induction l as [|[[[a hd] k] p] r IH]; simpl; intros prev o d.
+  - intros [= <- <-]. auto.
+  - destruct (if header_ok hd then _ else _) as [[[hd' k'] p']|]; [|intros [= <- <-]; auto].
+    destruct (sock_refuses a); [intros [= <- <-]; auto|].
+    destruct (send_all _ r) as [o' d'] eqn:S. intros [= <- <-]. simpl. eapply IH; eauto.
+Qed.
+
+Lemma shutdown_list_inv h e ids : forall s s' o phi,
+  shutdown_list h e s ids = (s', o) -> Inv s phi -> SInv s s' o phi.
+Proof.
+  induction ids as [|cid r IH]; cbn [shutdown_list]; intros s s' o phi.
+  - intros [= <- <-] I. apply SInv_frame; [apply frame_refl|auto].
+  - destruct (pfind cid (s_conns s)) as [cl|] eqn:P. 2:{ apply IH. }
+    destruct (call_handler h e s (HDisconnect cid)) as [s1 o1] eqn:C.
+    apply call_handler_spec in C. destruct C as [F1 L1].
+    match goal with |- context [shutdown_list h e ?x r] => set (sb := x) end.
+    destruct (shutdown_list h e sb r) as [s2 o2] eqn:R. intros [= <- <-] I.
+    assert (S1 : SInv s sb o1 phi).
+    { destruct F1 as (T1 & C1 & N1 & B1 & G1 & A1 & D1).
+      split; [|split; [exact A1|exact D1]]. rewrite L1.
+      unfold Inv, sb; simpl. rewrite shape_pdel. rewrite T1, C1, N1.
+      apply Inv'_disc; auto. apply pfind_shape; auto. }
+    eapply SInv_trans; eauto. eapply IH; eauto. apply S1.
+Qed.
+
+Lemma nodup_fst_unique (l : list (Z * addr)) cid a a' :
+  NoDup (map fst l) -> In (cid, a) l -> In (cid, a') l -> a' = a.
+Proof.
+  induction l as [|x l IH]; simpl; [tauto|]. intros N. inversion N; subst.
+  intros [->|P] [E|M1]; auto.
+  - congruence.
+  - exfalso. apply H1. simpl. apply in_map_iff. exists (cid, a'). auto.
+  - subst x. exfalso. apply H1. simpl. apply in_map_iff. exists (cid, a). auto.
+Qed.
+
+Lemma shutdown_list_clears h e ids : forall s s' o phi,
+  shutdown_list h e s ids = (s', o) -> Inv s phi ->
+  forall c, In c (map cl_id (s_conns s')) -> In c (map cl_id (s_conns s)) /\ ~ In c ids.
+Proof.
+  induction ids as [|cid r IH]; cbn [shutdown_list]; intros s s' o phi.
+  - intros [= <- <-] I c M. auto.
+  - destruct (pfind cid (s_conns s)) as [cl|] eqn:P.
+    + destruct (call_handler h e s (HDisconnect cid)) as [s1 o1] eqn:C.
+      apply call_handler_spec in C. destruct C as [F1 L1].
+      match goal with |- context [shutdown_list h e ?x r] => set (sb := x) end.
+      destruct (shutdown_list h e sb r) as [s2 o2] eqn:R. intros [= <- <-] I c M.
+      destruct F1 as (T1 & C1 & N1 & B1 & G1 & A1 & D1).
+      assert (Ib : Inv sb (adv phi [HDisconnect cid])).
+      { unfold Inv, sb; simpl. rewrite shape_pdel. rewrite T1, C1, N1.
+        apply Inv'_disc; auto. apply pfind_shape; auto. }
+      destruct (IH _ _ _ _ R Ib c M) as [M1 M2].
+      unfold sb in M1; simpl in M1. rewrite <- shape_ids, shape_pdel, C1 in M1.
+      apply in_map_iff in M1. destruct M1 as ([c' a'] & E & M1). simpl in E. subst c'.
+      apply adel_in in M1. destruct M1 as [M1 Na]. simpl in Na. split.
+      * rewrite <- shape_ids. apply in_map_iff. exists (c, a'). auto.
+      * intros [<-|X]; [|contradiction].
+        apply pfind_shape in P. destruct I as (A & _). rewrite map_app in A. apply nodup_app_iff in A.
+        destruct A as (_ & A2 & _). apply Na. eapply nodup_fst_unique; eauto.
+    + intros R I c M. destruct (IH _ _ _ _ R I c M) as [M1 M2]. split; auto.
+      intros [<-|X]; [|contradiction]. apply pfind_none in P. contradiction.
+Qed.
+
+#[local] Arguments srv_du : simpl never.
+#[local] Arguments srv_shutdown : simpl never.
+
+Lemma srv_shutdown_inv h e s s' o phi :
+  srv_shutdown h e s = (s', o) -> Inv s phi ->
+  Inv s' (adv phi (hlog o)) /\ s_conns s' = [] /\ s_active s' = false.
+Proof.
+  unfold srv_shutdown. destruct (shutdown_list _ _ _ _) as [s1 o1] eqn:L.
+  destruct (call_handler h e s1 HShutdown) as [s2 o2] eqn:C. intros [= <- <-] I.
+  pose proof (shutdown_list_inv _ _ _ _ _ _ _ L I) as (I1 & _).
+  pose proof (shutdown_list_clears _ _ _ _ _ _ _ L I) as Cl.
+  apply call_handler_spec in C. destruct C as [F2 L2].
+  assert (E1 : s_conns s1 = []).
+  { destruct (s_conns s1) as [|x r] eqn:E; auto. exfalso.
+    destruct (Cl (cl_id x)) as [A B]; [simpl; auto | contradiction]. }
+  split; [|split; simpl; auto].
+  - assert (X : Inv' (shape (s_temp s2)) (shape (s_conns s2)) (s_next_id s2) (adv (adv phi (hlog o1)) (hlog o2))).
+    { rewrite L2. destruct F2 as (T2 & C2 & N2 & _). rewrite T2, C2, N2. apply Inv'_quiet; auto. }
+    unfold Inv; simpl. eapply Inv'_ext; [|exact X]. intros c. rewrite hlog_app, adv_app. auto.
+  - destruct F2 as (_ & C2 & _). rewrite E1 in C2. destruct (s_conns s2); [auto|discriminate].
+Qed.
+
+Lemma srv_sx_inv h e s i s' o phi :
+  srv_sx h e s i = (s', o) -> Inv s phi ->
+  Inv s' (adv phi (hlog o)) /\ (s_active s' = false -> s_dead s' = false -> s_conns s' = [] \/ s_active s = false).
+Proof.
+  unfold srv_sx.
+  destruct (sweep_list _ s _) as [[s3 o3] p3] eqn:S3.
+  destruct (sweep_list _ s3 _) as [[s4 o4] p4] eqn:S4.
+  destruct (send_all None (p3 ++ p4)) as [o5 dead] eqn:S5. intros H I.
+  assert (I3 : SInv s s3 o3 phi).
+  { eapply sweep_list_inv; [|exact S3|exact I]. intros ? ? ? ? ? ? H0 H1; cbv beta in H0; eapply sweep_conn_inv; eauto. }
+  assert (I4 : SInv s3 s4 o4 (adv phi (hlog o3))).
+  { eapply sweep_list_inv; [|exact S4|apply I3]. intros ? ? ? ? ? ? H0 H1; cbv beta in H0; eapply sweep_temp_inv; eauto. }
+  pose proof (SInv_trans _ _ _ _ _ _ I3 I4) as (I5 & A5 & D5).
+  apply hlog_send_all in S5.
+  assert (I6 : Inv s4 (adv phi (hlog (o3 ++ o4 ++ o5)))).
+  { eapply Inv'_ext; [|exact I5]. intros c. rewrite !hlog_app, S5, app_nil_r. rewrite <- hlog_app. auto. }
+  destruct dead.
+  - injection H as <- <-. split; [exact I6|]. simpl. discriminate.
+  - destruct (i_stop i).
+    + destruct (srv_shutdown h e s4) as [s6 o6] eqn:X. injection H as <- <-.
+      destruct (srv_shutdown_inv _ _ _ _ _ _ X I6) as (I7 & C7 & A7). split.
+      * eapply Inv'_ext; [|exact I7]. intros c.
+        replace (o3 ++ o4 ++ o5 ++ o6) with ((o3 ++ o4 ++ o5) ++ o6) by (rewrite <- !app_assoc; auto).
+        rewrite (hlog_app (o3 ++ o4 ++ o5) o6), adv_app. auto.
+      * auto.
+    + injection H as <- <-. split; [exact I6|]. intros A _. right. congruence.
+Qed.
+
+Lemma srv_step_inv h e s i s' o phi :
+  srv_step h e s i = (s', o) -> Inv s phi ->
+  Inv s' (adv phi (hlog o)) /\ (s_active s' = false -> s_dead s' = false -> s_conns s' = [] \/ s_active s = false).
+Proof.
+  unfold srv_step. destruct (negb (s_active s) || s_dead s) eqn:G.
+  - intros [= <- <-] I. split; [exact I|]. intros A D. right. exact A.
+  - destruct (srv_du h e s i) as [s2 o2] eqn:DU. intros H I.
+    pose proof (srv_du_inv _ _ _ _ _ _ _ DU I) as (I2 & _ & A2).
+    destruct (s_dead s2) eqn:D2.
+    + injection H as <- <-. split; [exact I2|]. congruence.
+    + destruct (srv_sx h e s2 i) as [s6 o6] eqn:SX. injection H as <- <-.
+      destruct (srv_sx_inv _ _ _ _ _ _ _ SX I2) as [I6 C6]. split.
+      * eapply Inv'_ext; [|exact I6]. intros c. rewrite hlog_app, adv_app. auto.
+      * intros A D. destruct (C6 A D) as [X|X]; auto. right. congruence.
+Qed.
+
+(* a stopped loop stays stopped and silent *)
+Lemma srv_step_stopped h e s i : s_active s = false -> srv_step h e s i = (s, []).
+Proof. intros A. unfold srv_step. rewrite A. auto. Qed.
+
+Definition quiescent (s : srv) : Prop := s_active s = false -> s_dead s = false -> s_conns s = [].
+
+Lemma srv_run_inv h e is : forall s s' o phi,
+  srv_run h e s is = (s', o) -> Inv s phi -> quiescent s ->
+  Inv s' (adv phi (hlog o)) /\ quiescent s'.
+Proof.
+  induction is as [|i r IH]; simpl; intros s s' o phi.
+  - intros [= <- <-] I Q. auto.
+  - destruct (srv_step h e s i) as [s1 o1] eqn:S1. destruct (srv_run h e s1 r) as [s2 o2] eqn:R.
+    intros [= <- <-] I Q.
+    destruct (s_active s) eqn:A.
+    + destruct (srv_step_inv _ _ _ _ _ _ _ S1 I) as [I1 C1].
+      assert (Q1 : quiescent s1). { intros X Y. destruct (C1 X Y); [auto|congruence]. }
+      destruct (IH _ _ _ _ R I1 Q1) as [I2 Q2]. split; auto.
+      eapply Inv'_ext; [|exact I2]. intros c. rewrite hlog_app, adv_app. auto.
+    + rewrite srv_step_stopped in S1; auto. injection S1 as <- <-.
+      destruct (IH _ _ _ _ R I Q) as [I2 Q2]. split; auto.
+Qed.
+
+Lemma Inv_srv0 g bl : Inv (srv0 g bl) (fun _ => Some Fresh).
+Proof.
+  unfold Inv, Inv'; simpl. repeat split; try constructor; auto; try tauto; try discriminate.
+Qed.
+
+(* the whole life of the thread: starting(), then any number of iterations *)
+Definition srv_life (h : horacle) (e : env) (g : cfg) (bl : list Z) (is : list sin) : srv * list sout :=
+  let '(s0, o0) := srv_start h e (srv0 g bl) in
+  let '(s1, o1) := srv_run h e s0 is in (s1, o0 ++ o1).
+
+Lemma srv_life_inv h e g bl is s o :
+  srv_life h e g bl is = (s, o) -> Inv s (adv (fun _ => Some Fresh) (hlog o)) /\ quiescent s.
+Proof.
+  unfold srv_life, srv_start. destruct (call_handler _ _ _ _) as [s0 o0] eqn:C.
+  destruct (srv_run h e s0 is) as [s1 o1] eqn:R. intros [= <- <-].
+  apply call_handler_spec in C. destruct C as [F L].
+  assert (I0 : Inv s0 (adv (fun _ => Some Fresh) (hlog o0))).
+  { rewrite L. eapply Inv_frame; eauto. apply Inv'_quiet; auto. apply Inv_srv0. }
+  assert (Q0 : quiescent s0).
+  { intros X. destruct F as (_ & _ & _ & _ & _ & A & _). rewrite A in X. simpl in X. discriminate. }
+  destruct (srv_run_inv _ _ _ _ _ _ _ R I0 Q0) as [I1 Q1]. split; auto.
+  eapply Inv'_ext; [|exact I1]. intros c. rewrite hlog_app, adv_app. auto.
+Qed.
+
+(* ---------- the automaton accepts exactly connect . message* . disconnect prefixes ---------- *)
+Definition is_message (e : hevent) : Prop := match e with HMessage _ _ _ => True | _ => False end.
+
+Lemma lc_none l : fold_left lc_step l None = None.
+Proof. induction l; simpl; auto. Qed.
+Lemma lc_gone l : fold_left lc_step l (Some Gone) <> None -> l = [].
+Proof. destruct l; auto. simpl. rewrite lc_none. congruence. Qed.
+Lemma lc_live cid l : (forall x, In x l -> ev_cid x = Some cid) -> fold_left lc_step l (Some Live) <> None ->
+  exists msgs tail, l = msgs ++ tail /\ Forall is_message msgs /\ (tail = [] \/ tail = [HDisconnect cid]).
+Proof.
+  induction l as [|x r IH]; intros A H.
+  - exists [], []. auto.
+  - destruct x; simpl in H; try (rewrite lc_none in H; congruence).
+    + destruct IH as (ms & tl & E & F & G); auto. { intros y I. apply A. simpl; auto. }
+      exists (HMessage cid0 mseq p :: ms), tl. subst. split; auto. split; auto. constructor; simpl; auto.
+    + apply lc_gone in H. subst. exists [], [HDisconnect cid0]. split; auto. split; auto. right.
+      specialize (A (HDisconnect cid0) (or_introl eq_refl)). simpl in A. congruence.
+Qed.
+Lemma lc_fresh cid l : (forall x, In x l -> ev_cid x = Some cid) -> fold_left lc_step l (Some Fresh) <> None ->
+  l = [] \/ exists a t msgs tail, l = HConnect cid a t :: msgs ++ tail /\ Forall is_message msgs /\
+                                  (tail = [] \/ tail = [HDisconnect cid]).
+Proof.
+  destruct l as [|x r]; auto. intros A H. right.
+  destruct x; simpl in H; try (rewrite lc_none in H; congruence).
+  destruct (lc_live cid r) as (ms & tl & E & F & G); auto. { intros y I. apply A. simpl; auto. }
+  specialize (A (HConnect cid0 a token) (or_introl eq_refl)). simpl in A. injection A as ->.
+  exists a, token, ms, tl. subst; auto.
+Qed.
